@@ -427,6 +427,12 @@ partial def loop (h : IO.FS.Stream) (s : St) : IO Unit := do
         printVios (s.sc ++ "~") s.line
           [⟨"C11", "exceptionEscaped", [], s!"bus {b} event {e}: {why} escaped process_event instead of being captured as a handler's error result"⟩]
       loop h s
+    | ["oRlTaskDone", b, d] =>
+      -- C16: the cancelled run-loop task has terminated (observed a second after the cancellation, with handlers mid-flight)
+      if d == "0" then
+        printVios (if s.diverged then s.sc ++ "~" else s.sc) s.line
+          [⟨"C16", "cancelNotTerminating", [], s!"bus {b}: its run-loop task is still alive one second after it was cancelled"⟩]
+      loop h s
     | ["oAccessors", e, ch] =>
       -- C08: reading a completed event through the documented accessors changed one of its results (compared by value)
       if ch == "1" then
